@@ -1,7 +1,7 @@
 // Package refenc is an independent reference implementation of the parts of
 // W3C XML Encryption (xmlenc-core 1.0 / 1.1) that SAML uses.  It is written only
-// against the Go standard library (plus etree for the element tree and
-// x/crypto/ripemd160 for that one hash) and shares no code with
+// against the Go standard library (plus etree for the element tree and a private,
+// non-registering copy of RIPEMD-160 in ./rmd160) and shares no code with
 // github.com/crewjam/saml/xmlenc: block encryption, padding, OAEP and PKCS#1
 // encoding and the raw RSA operation are all spelled out here, so that the
 // library can be checked against it in both directions (C10), attacked with
@@ -41,7 +41,8 @@ import (
 	"strings"
 
 	"github.com/beevik/etree"
-	"golang.org/x/crypto/ripemd160"
+
+	"verif/harness/internal/refenc/rmd160"
 )
 
 // Namespaces.
@@ -140,7 +141,7 @@ func HashByURI(uri string) (func() hash.Hash, bool) {
 	case DigestSHA512, LibDigestSHA512:
 		return sha512.New, true
 	case DigestRIPEMD160, LibDigestRIPEMD160:
-		return ripemd160.New, true
+		return rmd160.New, true
 	}
 	return nil, false
 }
@@ -546,7 +547,42 @@ type Options struct {
 	ID           string // Id attribute of EncryptedData ("" = none)
 	KeyID        string // Id attribute of EncryptedKey ("" = none)
 	NoType       bool   // omit Type="…#Element"
+
+	// Presentation variants every conforming reader must tolerate.
+	XencPrefix string // namespace prefix of the xmlenc elements: "" = "xenc"; "-" = default namespace (no prefix)
+	DsPrefix   string // namespace prefix of the xmldsig elements: "" = "ds"
+	Extras     bool   // add the optional schema parts that carry no key material: KeySize, Recipient, ds:KeyName, CarriedKeyName, EncryptionProperties, MimeType
+	KeyIDRef   bool   // EncryptedData/KeyInfo carries a ds:RetrievalMethod URI="#<KeyID>" (sibling layout; needs KeyID)
 }
+
+type names struct{ xp, dp string }
+
+func (o Options) names() names {
+	n := names{xp: "xenc", dp: "ds"}
+	if o.XencPrefix != "" {
+		n.xp = o.XencPrefix
+	}
+	if o.DsPrefix != "" {
+		n.dp = o.DsPrefix
+	}
+	return n
+}
+
+func (n names) x(tag string) string {
+	if n.xp == "-" {
+		return tag
+	}
+	return n.xp + ":" + tag
+}
+func (n names) d(tag string) string { return n.dp + ":" + tag }
+func (n names) declX(e *etree.Element) {
+	if n.xp == "-" {
+		e.CreateAttr("xmlns", NSXenc)
+	} else {
+		e.CreateAttr("xmlns:"+n.xp, NSXenc)
+	}
+}
+func (n names) declD(e *etree.Element) { e.CreateAttr("xmlns:"+n.dp, NSDsig) }
 
 func b64(b []byte, wrap int) string {
 	s := base64.StdEncoding.EncodeToString(b)
@@ -576,17 +612,33 @@ func EncryptParts(plaintext []byte, cert *x509.Certificate, o Options) (data, ke
 	if err != nil {
 		return nil, nil, err
 	}
-	data = etree.NewElement("xenc:EncryptedData")
-	data.CreateAttr("xmlns:xenc", NSXenc)
+	nm := o.names()
+	data = etree.NewElement(nm.x("EncryptedData"))
+	nm.declX(data)
 	if o.ID != "" {
 		data.CreateAttr("Id", o.ID)
 	}
 	if !o.NoType {
 		data.CreateAttr("Type", TypeElement)
 	}
-	data.CreateElement("xenc:EncryptionMethod").CreateAttr("Algorithm", o.BlockAlg)
-	cd := data.CreateElement("xenc:CipherData")
-	cd.CreateElement("xenc:CipherValue").SetText(b64(value, o.WrapBase64))
+	if o.Extras {
+		data.CreateAttr("MimeType", "text/xml")
+	}
+	dem := data.CreateElement(nm.x("EncryptionMethod"))
+	dem.CreateAttr("Algorithm", o.BlockAlg)
+	if o.Extras {
+		if bs, ok := blockSpecs[o.BlockAlg]; ok {
+			dem.CreateElement(nm.x("KeySize")).SetText(fmt.Sprint(8 * bs.KeyLen))
+		}
+	}
+	cd := data.CreateElement(nm.x("CipherData"))
+	cd.CreateElement(nm.x("CipherValue")).SetText(b64(value, o.WrapBase64))
+	if o.Extras {
+		ep := data.CreateElement(nm.x("EncryptionProperties"))
+		p := ep.CreateElement(nm.x("EncryptionProperty"))
+		p.CreateAttr("Target", "#"+o.ID)
+		p.CreateElement("note").SetText("produced by refenc")
+	}
 	if o.KeyTransport == "" {
 		return data, nil, nil
 	}
@@ -602,20 +654,23 @@ func EncryptParts(plaintext []byte, cert *x509.Certificate, o Options) (data, ke
 	if err != nil {
 		return nil, nil, err
 	}
-	key = etree.NewElement("xenc:EncryptedKey")
-	key.CreateAttr("xmlns:xenc", NSXenc)
-	key.CreateAttr("xmlns:ds", NSDsig)
+	key = etree.NewElement(nm.x("EncryptedKey"))
+	nm.declX(key)
+	nm.declD(key)
 	if o.KeyID != "" {
 		key.CreateAttr("Id", o.KeyID)
 	}
-	em := key.CreateElement("xenc:EncryptionMethod")
+	if o.Extras {
+		key.CreateAttr("Recipient", "https://sp.example.com/saml/metadata")
+	}
+	em := key.CreateElement(nm.x("EncryptionMethod"))
 	em.CreateAttr("Algorithm", o.KeyTransport)
 	if o.KeyTransport != RSA15 {
 		if o.OAEPParams != nil {
-			em.CreateElement("xenc:OAEPparams").SetText(b64(o.OAEPParams, 0))
+			em.CreateElement(nm.x("OAEPparams")).SetText(b64(o.OAEPParams, 0))
 		}
 		if o.Digest != "" {
-			em.CreateElement("ds:DigestMethod").CreateAttr("Algorithm", o.Digest)
+			em.CreateElement(nm.d("DigestMethod")).CreateAttr("Algorithm", o.Digest)
 		}
 		if o.KeyTransport == RSAOAEP11 && o.MGF != "" {
 			m := em.CreateElement("xenc11:MGF")
@@ -624,11 +679,19 @@ func EncryptParts(plaintext []byte, cert *x509.Certificate, o Options) (data, ke
 		}
 	}
 	if o.EmbedCert {
-		ki := key.CreateElement("ds:KeyInfo")
-		ki.CreateElement("ds:X509Data").CreateElement("ds:X509Certificate").SetText(b64(cert.Raw, o.WrapBase64))
+		ki := key.CreateElement(nm.d("KeyInfo"))
+		if o.Extras {
+			ki.CreateElement(nm.d("KeyName")).SetText("recipient key")
+		}
+		ki.CreateElement(nm.d("X509Data")).CreateElement(nm.d("X509Certificate")).SetText(b64(cert.Raw, o.WrapBase64))
+	} else if o.Extras {
+		key.CreateElement(nm.d("KeyInfo")).CreateElement(nm.d("KeyName")).SetText("recipient key")
 	}
-	kcd := key.CreateElement("xenc:CipherData")
-	kcd.CreateElement("xenc:CipherValue").SetText(b64(wrapped, o.WrapBase64))
+	kcd := key.CreateElement(nm.x("CipherData"))
+	kcd.CreateElement(nm.x("CipherValue")).SetText(b64(wrapped, o.WrapBase64))
+	if o.Extras {
+		key.CreateElement(nm.x("CarriedKeyName")).SetText("content key")
+	}
 	return data, key, nil
 }
 
@@ -640,8 +703,9 @@ func EncryptElement(plaintext []byte, cert *x509.Certificate, opts Options) (*et
 		return nil, err
 	}
 	if key != nil {
-		ki := etree.NewElement("ds:KeyInfo")
-		ki.CreateAttr("xmlns:ds", NSDsig)
+		nm := opts.names()
+		ki := etree.NewElement(nm.d("KeyInfo"))
+		nm.declD(ki)
 		ki.AddChild(key)
 		data.InsertChildAt(1, ki) // after EncryptionMethod, before CipherData
 	}
@@ -667,6 +731,15 @@ func EncryptedAssertion(plaintext []byte, cert *x509.Certificate, opts Options) 
 	}
 	ea.AddChild(data)
 	if key != nil {
+		if opts.KeyIDRef && opts.KeyID != "" {
+			nm := opts.names()
+			ki := etree.NewElement(nm.d("KeyInfo"))
+			nm.declD(ki)
+			rm := ki.CreateElement(nm.d("RetrievalMethod"))
+			rm.CreateAttr("Type", NSXenc+"EncryptedKey")
+			rm.CreateAttr("URI", "#"+opts.KeyID)
+			data.InsertChildAt(1, ki)
+		}
 		ea.AddChild(key)
 	}
 	return ea, nil
